@@ -10,7 +10,7 @@ let flags_of_variant v =
   | "d_drop" -> { repaired with f_drop = true }
   | "d_bulk" -> { repaired with f_bulk = true }
   | "d_relall" -> { repaired with f_relall = true }
-  | "d_recv_fixed" -> { defective with f_drop = false; f_relall = false; f_range = false }
+  | "d_stale_bulk" | "d_recv_fixed" -> { defective with f_drop = false; f_relall = false; f_range = false }
   | _ -> failwith ("unknown variant " ^ v)
 
 let z_of_decimal s = match n_of_decimal s with N0 -> Z0 | Npos p -> Zpos p
@@ -61,6 +61,7 @@ let run_rng fl toks =
        | [] -> failwith "short")
     done;
     let qs = match !rest with _ :: q -> q | [] -> [] in
+    let qs = List.filter (fun t -> not (String.length t > 1 && t.[0] = 'A')) qs in
     let rec pairs = function a :: c :: t -> (a, c) :: pairs t | _ -> [] in
     let head = Printf.sprintf "size=%d old=%s new=%s" (int_of_nat !b.r_size) (show_seq (oldest_seq !b)) (show_seq (newest_seq !b)) in
     String.concat " ; " (head :: List.map (fun (f, t) -> show_range (range fl !b (zu64 f) (zu64 t))) (pairs qs))
@@ -98,7 +99,7 @@ let sorted_strings l = List.map snd (List.sort (fun (a, _) (b, _) -> compare a b
 
 let run_hist fl toks =
   match toks with
-  | _mode :: cap :: _page :: rest ->
+  | _mode :: cap :: page :: rest ->
     let is_pool t = t.[0] >= '0' && t.[0] <= '9' in
     let pools = List.filter is_pool rest and ops = List.filter (fun t -> not (is_pool t)) rest in
     let v4 = ref [] and na = ref [] and pd = ref [] in
@@ -119,8 +120,14 @@ let run_hist fl toks =
       | "E" :: _ -> let (s, rel) = parse_session t in OEvent (s, rel)
       | ["D"; g] -> ODeliver (n_of_decimal g)
       | ["R"; g; s] -> ORedeliver (n_of_decimal g, u64_of_decimal s)
+      | ["DF"; g] -> ODeliverF (n_of_decimal g)
+      | ["RF"; g; s] -> ORedeliverF (n_of_decimal g, u64_of_decimal s)
       | ["P"; g; f; t] -> OReplay (n_of_decimal g, zu64 f, zu64 t)
       | ["B"; g] -> OBulk (n_of_decimal g)
+      | "C" :: g :: k :: ev ->
+        let (s, rel) = parse_session (String.concat ":" ("E" :: ev)) in
+        let ps = int_of_string page in
+        OBulkChurn (n_of_decimal g, nat_of_int (int_of_string k), nat_of_int (if ps <= 0 then 1000 else ps), s, rel)
       | _ -> failwith ("bad op " ^ t) in
     let y = sys_run fl y0 (List.map parse_op ops) in
     let sn g = match aget N.eqb (n_of_int g) y.y_sender with
